@@ -810,3 +810,90 @@ mod tests {
         }
     }
 }
+
+/// Verification hook (add-only, `--cfg libp2p_verif`): thin access to the crate-private
+/// [`Registrations`] table, the request dispatcher and the wire codec.
+#[cfg(libp2p_verif)]
+pub mod verif {
+    use asynchronous_codec::{BytesMut, Decoder, Encoder};
+
+    use super::*;
+    pub use crate::codec::{Message, NewRegistration};
+
+    pub struct Registrations(super::Registrations);
+
+    impl Registrations {
+        pub fn with_config(config: Config) -> Self {
+            Self(super::Registrations::with_config(config))
+        }
+
+        pub fn add(&mut self, new: NewRegistration) -> Result<Registration, ErrorCode> {
+            self.0.add(new)
+        }
+
+        pub fn remove(&mut self, namespace: Namespace, peer: PeerId) {
+            self.0.remove(namespace, peer)
+        }
+
+        #[allow(clippy::result_unit_err)]
+        pub fn get(
+            &mut self,
+            namespace: Option<Namespace>,
+            cookie: Option<Cookie>,
+            limit: Option<u64>,
+        ) -> Result<(Vec<Registration>, Cookie), ()> {
+            match self.0.get(namespace, cookie, limit) {
+                Ok((regs, cookie)) => Ok((regs.cloned().collect(), cookie)),
+                Err(CookieNamespaceMismatch) => Err(()),
+            }
+        }
+
+        /// The real expiry path.
+        pub fn poll(&mut self, cx: &mut Context<'_>) -> Poll<Registration> {
+            self.0.poll(cx).map(|ExpiredRegistration(r)| r)
+        }
+
+        /// The server's request dispatcher (`handle_request`) on this table.
+        pub fn handle_request(
+            &mut self,
+            peer: PeerId,
+            message: Message,
+        ) -> Option<(Event, Option<Message>)> {
+            handle_request(peer, message, &mut self.0)
+        }
+
+        /// Ids of all stored registrations (keys of `registrations`).
+        pub fn stored_ids(&self) -> Vec<u64> {
+            self.0.registrations.keys().map(|id| id.0).collect()
+        }
+
+        /// Id of the current registration of every (peer, namespace).
+        pub fn current_ids(&self) -> Vec<(PeerId, Namespace, u64)> {
+            self.0
+                .registrations_for_peer
+                .iter()
+                .map(|((p, n), id)| (*p, n.clone(), id.0))
+                .collect()
+        }
+
+        /// Make the expiry timer of registration `id` fire now: the next `poll` sees it exactly
+        /// as if its `Delay` had elapsed.
+        pub fn fire_expiry(&mut self, id: u64) {
+            self.0
+                .next_expiry
+                .push(futures::future::ready(RegistrationId(id)).boxed());
+        }
+    }
+
+    /// One message through the real wire codec (length-prefixed protobuf).
+    pub fn encode(message: Message) -> Result<Vec<u8>, crate::codec::Error> {
+        let mut buf = BytesMut::new();
+        crate::codec::Codec::default().encode(message, &mut buf)?;
+        Ok(buf.to_vec())
+    }
+
+    pub fn decode(bytes: &[u8]) -> Result<Option<Message>, crate::codec::Error> {
+        let mut buf = BytesMut::from(bytes);
+        crate::codec::Codec::default().decode(&mut buf)
+    }
+}
